@@ -79,9 +79,7 @@ theorem scan_param (key n v tok rest : Bytes) (hn : NameTok n) (hv : NoQuote v) 
   rw [e, scan_name key n tok _ hn, scan_name key [eq] (tok ++ n) _ eq_nameTok]
   simp only [scan, if_true]
   rw [scan_quoted key _ v [] rest hv]
-  by_cases hk : tok ++ n ++ [eq] = key
-  · simp [hk]
-  · simp [hk]
+  by_cases hk : tok ++ n ++ [eq] = key <;> simp
 
 /-- **parse_challenge** — the scanner's specification on every well-formed challenge: for any
 scheme token and any list of parameters, each preceded by a non-empty run of spaces/commas, with
@@ -104,5 +102,38 @@ theorem parse_challenge (scheme name : Bytes) (ps : List (Bytes × Bytes × Byte
   unfold parseQuoted
   rw [scan_name _ scheme [] _ hs]
   exact scan_renderG name ps _ hps
+
+/-! ### The header `build` emits is such a challenge -/
+
+/-- `params` with the separators `build` writes in front of each parameter. -/
+def sepParams (url : Bytes) (m : Meta) : List (Bytes × Bytes × Bytes) :=
+  [([sp], nResourceMetadata, url)]
+    ++ (if m.clientId.isEmpty then [] else [([comma, sp], nClientId, m.clientId)])
+    ++ (if m.useIdToken then [([comma, sp], nUseIdToken, litTrue)] else [])
+    ++ (if m.clientSecret.isEmpty then [] else [([comma, sp], nClientSecret, m.clientSecret)])
+    ++ (if m.dcClientId.isEmpty then [] else [([comma, sp], nDcClientId, m.dcClientId)])
+    ++ (if m.dcClientSecret.isEmpty then [] else [([comma, sp], nDcClientSecret, m.dcClientSecret)])
+
+theorem renderG_append : ∀ (a b : List (Bytes × Bytes × Bytes)),
+    renderG (a ++ b) = renderG a ++ renderG b
+  | [], b => by simp [renderG]
+  | (s, n, v) :: a, b => by simp [renderG, renderG_append a b, List.append_assoc]
+
+theorem build_eq_render (url : Bytes) (m : Meta) :
+    build url m = bearer ++ renderG (sepParams url m) := by
+  unfold build sepParams opt
+  simp only [renderG_append, List.append_assoc]
+  congr 1
+  by_cases h1 : m.clientId.isEmpty <;> by_cases h2 : m.useIdToken <;>
+    by_cases h3 : m.clientSecret.isEmpty <;> by_cases h4 : m.dcClientId.isEmpty <;>
+    by_cases h5 : m.dcClientSecret.isEmpty <;>
+    simp [h1, h2, h3, h4, h5, renderG, List.append_assoc]
+
+theorem sepParams_map (url : Bytes) (m : Meta) : (sepParams url m).map (·.2) = params url m := by
+  unfold sepParams params
+  by_cases h1 : m.clientId.isEmpty <;> by_cases h2 : m.useIdToken <;>
+    by_cases h3 : m.clientSecret.isEmpty <;> by_cases h4 : m.dcClientId.isEmpty <;>
+    by_cases h5 : m.dcClientSecret.isEmpty <;>
+    simp [h1, h2, h3, h4, h5]
 
 end Vgi.Props.C28
